@@ -507,6 +507,12 @@ class C15(Prop):
             if 'refused' in r and not prev['rows']:
                 ctx.note('lazy-reference-on-empty-frame')
                 return None              # the code evaluates these references per row: with no row nothing is looked up
+            if r.get('refused') == 'ambiguous' and k == 'join':
+                # a join key that names two columns of one side: the code resolves it to the first of them and keeps the
+                # other as an ordinary column; the model's joins are defined for unambiguous keys only (C13's quantifier).
+                # The property itself has just been checked on the real frame; the chain is not continued in the model.
+                ctx.note('join-key-ambiguous-not-modelled')
+                return None
             if 'refused' in r:
                 return Mismatch('step %d %s: the model refuses (%s) what the code accepts' % (step, k, r['refused']),
                                 {'columns': cur['columns']}, r, 'C15:model:refused:' + k, relation='model-only')
